@@ -153,6 +153,9 @@ func travWorker(c *evid.Ctx, prop string) {
 	if prop == "C04" {
 		c04server(c)
 	}
+	if prop == "C02" {
+		c02server(c)
+	}
 	// Evidence floor: a run that observed nothing decides nothing.
 	c.Floor("stall rendezvous checked", 1)
 	c.Floor("scheduled completions", 1)
